@@ -900,6 +900,25 @@ fn drive_escapes(sink: &mut Sink, _rng: &mut Rng, n: usize) {
             }
         }
     }
+    // an escaped escape stays an escape after ONE decoding: %25XY (and %2525XY) in every component
+    for xy in ["2F", "2f", "2E", "2e", "2E%252E", "41", "25", "00", "7F", "C3%25A9", "40", "3F", "23", "26", "3D"] {
+        for pre in ["%25", "%2525"] {
+            let e = format!("{}{}", pre, xy);
+            for s in [format!("pkg:t/a{e}b"), format!("pkg:t/a{e}b/n"), format!("pkg:t/{e}/n"), format!("pkg:t/n@1{e}"), format!("pkg:t/n?k=v{e}"),
+                      format!("pkg:t/n#s{e}t"), format!("pkg:t/n#a/{e}/b"), format!("pkg:golang/x/{e}/n"), format!("pkg:t/n?checksum=a:{e}")] {
+                parse_all(sink, &s);
+            }
+        }
+    }
+    // spellings of separators and white space borrowed from other notations (XML, HTML, form encoding, shells,
+    // Windows paths): none of them means anything in a PURL
+    for x in ["&amp;", "&#38;", "&lt;", "&quot;", ";", "&&", "&;", "+", "%20", "\\", "\\/", "%5C", "%5c", "/./", "/../", "\t", "\n", "\r\n", " ", "%0A", "%09", "<", ">", "\"", "'", "`",
+              "{", "}", "|", "^", "[", "]", "~", "$", "!", "*", "(", ")", ",", "%2C", "=", "==", ":", "::", "@@", "??", "##", "%", "%%", "%25%25"] {
+        for s in [format!("pkg:t/n?a=1{x}b=2"), format!("pkg:t/n?a=1&b{x}=2"), format!("pkg:t/a{x}b/n"), format!("pkg:t/n{x}m@1"), format!("pkg:t/n@1{x}2"),
+                  format!("pkg:t/n#s{x}t"), format!("pkg:t{x}/n"), format!("pkg{x}:t/n"), format!("pkg:{x}t/n"), format!("pkg:t/n?checksum=a:00{x}b:11")] {
+            parse_all(sink, &s);
+        }
+    }
     let mut digits: Vec<char> = (0u8..0x80).map(|b| b as char).collect();
     digits.extend(['\u{80}', '\u{e9}', '\u{ff}', '\u{130}', '\u{660}', '\u{ff10}', '\u{ff21}', '\u{1d7d8}']);
     for c in digits {
